@@ -1064,7 +1064,12 @@ def make_builtins(interp):
             return int.from_bytes(data, byteorder, signed=signed)
         n = const_of(rope_len_term(data))
         if n is None:
-            raise OutOfReach("int.from_bytes of symbolic length")
+            c = ctx()
+            if not c.is_true(rope_len_term(data) <= 16):
+                raise OutOfReach("int.from_bytes of unbounded symbolic length")
+            n = c.concretize(rope_len_term(data), 0, 16, "int.from_bytes length")
+            if n == 0:
+                return 0
         items = [rope_index_term(data, k) for k in range(n)]
         return mk_int(_int_from(items, signed, "<" if byteorder == "little" else ">"))
     BT["int"].ns["from_bytes"] = IStaticMethod(INative("int.from_bytes", _int_from_bytes))
